@@ -8,10 +8,34 @@ import families as fam_mod
 ID = 'C10'
 NAMESPACE = 'VL.C10'
 LEAN_MODULES = ['VotelibProofs.Props.C10']
-GEN_MODULES = ['Divisor', 'Quota']
+GEN_MODULES = ['Divisor', 'Quota', 'Threshold']
 REQUIRED = ['getNBest_perm', 'getNBest_rename', 'mem_getNBest_iff', 'symmetric_candidates', 'ha_perm_seats', 'ha_perm_tie',
-            'ha_rename_seats', 'ha_rename_tie', 'isNth_perm', 'aboveSorted_perm', 'level_perm']
-PROVED_FAMILIES = ['plurality', 'ha_d_hondt', 'ha_sainte_lague', 'ha_imperiali', 'ha_danish', 'ha_macau']
+            'ha_rename_seats', 'ha_rename_tie', 'isNth_perm', 'aboveSorted_perm', 'level_perm',
+            'abs_threshold_perm', 'abs_threshold_rename', 'abs_threshold_symmetric', 'rel_threshold_perm', 'rel_threshold_rename',
+            'quota_selector_perm', 'quota_selector_rename',
+            'quota_distributor_perm', 'quota_distributor_rename', 'largest_remainder_perm', 'largest_remainder_rename']
+_LR = ['hare', 'hagenbach_bischoff', 'imperiali', 'droop', 'hare_rounded', 'hagenbach_bischoff_ceil', 'hagenbach_bischoff_rounded']
+
+
+def _simple(op, **kw):
+    return lambda prof, n: dict(op=op, votes=prof, n=n, **kw)
+
+
+# family name -> (protocol line of the owner's driver handler for (profile, n), kind of the model's answer).
+# The configuration repeats the constructor arguments of harness/families.py (read-only there); a drift would show up as a
+# correspondence disagreement.
+MODEL = {'plurality': (_simple('plurality'), 'sel')}
+for _d in ['d_hondt', 'sainte_lague', 'imperiali', 'danish', 'macau']:
+    MODEL[f'ha_{_d}'] = (_simple('ha', divisor=_d, first_coef=None, prev=[], max=[]), 'dist')
+for _q in _LR:
+    MODEL[f'lr_{_q}'] = (_simple('lr', quota=_q, accept_equal=True, on_overaward='error', prev=[], max=[]), 'dist')
+for _q in ['hare', 'droop']:
+    MODEL[f'qd_{_q}'] = (_simple('qd', quota=_q, accept_equal=True, on_overaward='error', prev=[], max=[]), 'dist')
+    MODEL[f'quota_selector_{_q}'] = (_simple('quota_selector', quota=_q, accept_equal=True, on_more='select'), 'sel')
+MODEL['rel_threshold_5pc'] = (_simple('rel_threshold', threshold='1/20', accept_equal=True), 'sel')
+MODEL['rel_threshold_third'] = (_simple('rel_threshold', threshold='1/3', accept_equal=False), 'sel')
+MODEL['abs_threshold_2'] = (_simple('abs_threshold', threshold='2', accept_equal=True), 'sel')
+PROVED_FAMILIES = list(MODEL)
 K_PERM = 3
 K_REN = 3
 HASH_SEEDS = ['0', '1', '2', '3', 'random']
@@ -190,22 +214,21 @@ def nontrivial(case, obs):
 
 
 def model_line(case):
-    """the models of the proved families evaluate the LAST permutation; compared with the implementation on it"""
+    """the Lean models of the proved families evaluate the LAST permutation (a permuted presentation); the answer is compared
+    with the implementation on that presentation"""
     if case['op'] != 'invariance':
         return None
-    f = case['family']
-    prof = case['perms'][-1]
-    if f == 'plurality':
-        return {'op': 'plurality', 'n': case['n'], 'votes': prof}
-    if f in PROVED_FAMILIES and f.startswith('ha_'):
-        return {'op': 'ha', 'divisor': f[3:], 'first_coef': None, 'votes': prof, 'n': case['n'], 'prev': [], 'max': []}
-    return None
+    m = MODEL.get(case['family'])
+    if m is None:
+        return None
+    return m[0](case['perms'][-1], case['n'])
 
 
 def compare(case, iobs, mobs):
+    kind = MODEL[case['family']][1]
     got = iobs['perms'][-1]
-    a = _multiset('dist' if case['family'].startswith('ha_') else 'sel', got)
-    b = _multiset('dist' if case['family'].startswith('ha_') else 'sel', mobs)
+    a = _multiset(kind, got)
+    b = _multiset(kind, mobs)
     if a != b:
         return f'impl={json.dumps(a)} model={json.dumps(b)}'
     return None
